@@ -319,8 +319,25 @@ def select_cache(I, mask):
     key = id(mask)
     if key not in cache:
         n = Z(mask.shape[0])
-        m, pos, rank = theory.mask_select(I.path, n, lambda i, _m=mask: _m.elem(i), "mask")
-        cache[key] = (m, pos, rank, mask)  # keep the mask alive so ids are not reused
+        me = fz(mask)  # the selection is of the mask's value at this moment
+        m, pos, rank = theory.mask_select(I.path, n, lambda i, _e=me: _e(i), "mask")
+        # uniqueness of the increasing enumeration: two masks of one length that agree pointwise
+        # select the same positions (by induction on the index; T-np axiom, audited natively)
+        for (m0, pos0, rank0, mask0, e0, n0) in list(cache.values()):
+            if not z3.simplify(n0 == n).eq(z3.BoolVal(True)) and not n0.eq(n):
+                continue
+            theory.use("T-np.mask_select unique: pointwise equal masks give the same selection")
+            i, j = z3.Ints(f"{fresh_name('i')} {fresh_name('j')}")
+            same = z3.ForAll([i], z3.Implies(z3.And(i >= 0, i < n), e0(i) == me(i)))
+            concl = z3.And(
+                m0 == m,
+                z3.ForAll([j], z3.Implies(z3.And(j >= 0, j < m), pos0(j) == pos(j)), patterns=[pos0(j)]),
+                z3.ForAll([j], z3.Implies(z3.And(j >= 0, j < m), pos0(j) == pos(j)), patterns=[pos(j)]),
+                z3.ForAll([i], z3.Implies(z3.And(i >= 0, i <= n), rank0(i) == rank(i)), patterns=[rank0(i)]),
+                z3.ForAll([i], z3.Implies(z3.And(i >= 0, i <= n), rank0(i) == rank(i)), patterns=[rank(i)]),
+            )
+            I.path.assume_tagged("selection-uniqueness", z3.Implies(same, concl))
+        cache[key] = (m, pos, rank, mask, me, n)  # keep the mask alive so ids are not reused
     return cache[key][:3]
 
 
@@ -1040,16 +1057,24 @@ def np_delete(I, args, kw):
         cols = lambda arr: Arr((mk(Z(n) - cnt, "int"),) + tuple(arr.shape[1:]), lambda j, *rest, _e=fz(arr): _e(z3.If(Z(j) < zlo, Z(j), Z(j) + cnt), *rest), arr.dtype, arr.tag + ".del")
     elif isinstance(idx, Arr) and idx.dtype == "int":
         all_in_range(I, idx, n)
-        member = z3.Function(fresh_name("deleted"), z3.IntSort(), z3.BoolSort())
-        q = [z3.Int(fresh_name("q")) for _ in idx.shape]
-        rng = z3.And(*[z3.And(x >= 0, x < Z(s)) for x, s in zip(q, idx.shape)])
-        I.path.assume(z3.ForAll(q, z3.Implies(rng, member(norm(idx.elem(*q), n)))))
-        wit = [z3.Function(fresh_name("wit"), z3.IntSort(), z3.IntSort()) for _ in idx.shape]
-        i = z3.Int(fresh_name("i"))
-        ws = [w(i) for w in wit]
-        I.path.assume(z3.ForAll([i], z3.Implies(member(i), z3.And(*[z3.And(w >= 0, w < Z(s)) for w, s in zip(ws, idx.shape)], norm(idx.elem(*ws), n) == i)), patterns=[member(i)]))
-        keep = Arr((n,), lambda k, _m=member: z3.Not(_m(Z(k))), "bool", "keep")
-        keep.deleted = (idx, member)
+        # the set of deleted positions depends only on (idx, n): share it between calls so that
+        # deleting the same indices from two arrays of one length is one selection
+        dcache = I.path.ghost.setdefault("deleted", {})
+        dkey = (id(idx), str(z3.simplify(Z(n))))
+        if dkey not in dcache:
+            member = z3.Function(fresh_name("deleted"), z3.IntSort(), z3.BoolSort())
+            q = [z3.Int(fresh_name("q")) for _ in idx.shape]
+            rng = z3.And(*[z3.And(x >= 0, x < Z(s)) for x, s in zip(q, idx.shape)])
+            I.path.assume(z3.ForAll(q, z3.Implies(rng, member(norm(idx.elem(*q), n)))))
+            wit = [z3.Function(fresh_name("wit"), z3.IntSort(), z3.IntSort()) for _ in idx.shape]
+            i = z3.Int(fresh_name("i"))
+            ws = [w(i) for w in wit]
+            I.path.assume(z3.ForAll([i], z3.Implies(member(i), z3.And(*[z3.And(w >= 0, w < Z(s)) for w, s in zip(ws, idx.shape)], norm(idx.elem(*ws), n) == i)), patterns=[member(i)]))
+            keep = Arr((n,), lambda k, _m=member: z3.Not(_m(Z(k))), "bool", "keep")
+            keep.deleted = (idx, member)
+            dcache[dkey] = (keep, idx)
+        keep = dcache[dkey][0]
+        member = keep.deleted[1]
         m, pos, rank = select_cache(I, keep)
 
         def cols(arr, _keep=keep, _pos=pos, _rank=rank, _m=m):
